@@ -202,7 +202,22 @@ def _check(item: dict, out: dict) -> None:
     solver = z3.Solver()
     solver.set("timeout", timeout_ms)
     solver.add(db.cons + ccons + model.side + ref.side)
-    solver.add(regions.dynamic_constraints(active, {"likes": model.likes}))
+    # OData-level view of the same region: the *value* of a non-literal pattern argument (field, call, concat of a
+    # literal wildcard with a field, ...) - in the SQL text a user-written '%' inside concat() cannot be told apart
+    # from the wildcard the visitor adds, so the region is stated on the filter, not on the emitted text
+    nonlit = []
+    if "like-field-pattern-wildcards" in active:
+        for sub in G.subterms(term):
+            if sub[0] == "call" and sub[1] in ("contains", "startswith", "endswith") and len(sub[2]) == 2 \
+                    and sub[2][1][0] != "str":
+                try:
+                    v = ref.ev(sub[2][1])
+                except Exception:
+                    continue
+                if getattr(v, "kind", None) == "str":
+                    nonlit.append(v)
+    solver.add(regions.dynamic_constraints(active, {"likes": model.likes, "nonliteral_patterns": nonlit}))
+    solver.add(ref.side)
     solver.push()
     solver.add(sql_keep != ref_keep)
     ts = time.time()
